@@ -87,7 +87,7 @@ Definition lbuf_search_g (lb : list bytes) (fwd : bool) (r0 o0 : nat) : sres :=
 
 (* all successive matches of a row (character offsets), as the backward enumeration produces them
    when no cursor limits it: the property's "successive matches" *)
-Fixpoint occ (fuel : nat) (s : bytes) (off : nat) : list nat :=
+Fixpoint occ (fuel : nat) (s : bytes) (off : nat) : list (nat * nat) :=
   match fuel with
   | O => []
   | S f =>
@@ -98,7 +98,7 @@ Fixpoint occ (fuel : nat) (s : bytes) (off : nat) : list nat :=
       if phantom s beg then []
       else
         let off' := off + (if b <? e then e else e + uc_len (skipn (off + e) s)) in
-        uc_off s beg :: (if (nthb s off' =? 0)%N || (nthb s off' =? 10)%N then [] else occ f s off')
+        conv s beg (e - b) :: (if (nthb s off' =? 0)%N || (nthb s off' =? 10)%N then [] else occ f s off')
     end
   end.
 End Rows.
@@ -191,16 +191,18 @@ Definition vi_curword (s : bytes) (off : nat) : option bytes :=
     else Some (firstn (Nat.min 119 (e - b)) (skipn b s))
   end.
 
+(* the row matcher the code uses: rstr_find(re, s + off, 1, offs, off ? RE_NOTBOL : 0), where
+   rfind kw t notbol = rstr_find(rstr_make(kw, xic ? RE_ICASE : 0), t, 1, offs, notbol ? RE_NOTBOL : 0) *)
+Definition fm_suffix (rfind : bytes -> bytes -> bool -> option (nat * nat)) (kw : bytes) (s : bytes) (off : nat)
+  : option (nat * nat) := rfind kw (skipn off s) (negb (off =? 0)).
+
 Section Search.
-(* rstr_find(rstr_make(kw, xic ? RE_ICASE : 0), s, 1, offs, notbol ? RE_NOTBOL : 0) on the C string s *)
-Variable rfind : bytes -> bytes -> bool -> option (nat * nat).
+(* fmk kw = the row matcher for pattern kw: fm_suffix rfind for the code, a whole-line matcher for the specification *)
+Variable fmk : bytes -> bytes -> nat -> option (nat * nat).
 Variable rcomp : bytes -> bool.                 (* rstr_make(kw) != NULL *)
 
-Definition fm_suffix (kw : bytes) (s : bytes) (off : nat) : option (nat * nat) :=
-  rfind kw (skipn off s) (negb (off =? 0)).
-
 Definition lbuf_search (kw : bytes) (lb : list bytes) (fwd : bool) (r0 o0 : nat) : sres :=
-  if rcomp kw then lbuf_search_g (fm_suffix kw) lb fwd r0 o0 else SNotFound.
+  if rcomp kw then lbuf_search_g (fmk kw) lb fwd r0 o0 else SNotFound.
 
 (* the count loop of vi_search: every further search continues from the match just found *)
 Fixpoint search_iter (cnt : nat) (kw : bytes) (lb : list bytes) (fwd : bool) (r o : nat) : sres :=
@@ -344,6 +346,23 @@ Definition lastb (n : nat) (s : bytes) (prev : option N) : option N :=
 Section RefMatch.
 Variable ic notbol : bool.
 
+Section Star.
+Variable k : option N -> bytes -> option nat.       (* the rest of the pattern *)
+Variable a : atom.
+(* greedy x*: as many as possible first, then give back; fuel = length s, every step consumes *)
+Fixpoint star_loop (fuel : nat) (prev : option N) (s : bytes) : option nat :=
+  match fuel with
+  | O => k prev s
+  | S f => match atom_step ic a s with
+           | Some n => match star_loop f (lastb n s prev) (skipn n s) with
+                       | Some m => Some (n + m)
+                       | None => k prev s
+                       end
+           | None => k prev s
+           end
+  end.
+End Star.
+
 Fixpoint mt (its : list item) (prev : option N) (s : bytes) : option nat :=
   match its with
   | [] => Some 0
@@ -356,18 +375,7 @@ Fixpoint mt (its : list item) (prev : option N) (s : bytes) : option nat :=
                        end
            | None => None
            end
-  | (a, true) :: r =>
-      (fix st (fuel : nat) (prev : option N) (s : bytes) {struct fuel} : option nat :=
-         match fuel with
-         | O => mt r prev s            (* fuel = length s and every step consumes: s is empty here *)
-         | S f => match atom_step ic a s with
-                  | Some n => match st f (lastb n s prev) (skipn n s) with
-                              | Some m => Some (n + m)
-                              | None => mt r prev s
-                              end
-                  | None => mt r prev s
-                  end
-         end) (length s) prev s
+  | (a, true) :: r => star_loop (mt r) a (length s) prev s
   end.
 
 (* regex.c regexec: try every character start including the terminator, none on an empty subject *)
@@ -540,7 +548,8 @@ Definition no_word_atoms (kw : bytes) : bool :=
   end.
 
 (* the model and the specification instantiated with the reference matcher *)
-Definition ref_run (ic : bool) := run_cmds (ref_rfind ic) ref_rcomp.
+Definition ref_run (ic : bool) := run_cmds (fm_suffix (ref_rfind ic)) ref_rcomp.
+Definition ref_spec_run (ic : bool) := run_cmds (ref_wfind ic) ref_rcomp.
 Definition ref_spec_search (ic : bool) (kw : bytes) (lb : list bytes) (fwd : bool) (r0 o0 : nat) : sres :=
   if ref_rcomp kw then lbuf_search_g (ref_wfind ic kw) lb fwd r0 o0 else SNotFound.
 Definition line_ok (s : bytes) : Prop := exists body, s = body ++ [10%N] /\ ~ In 10%N body.
